@@ -57,12 +57,26 @@ def check_obligations(obs, timeout_ms, vac_hyps=None):
     """discharge a list of core.Obligation; returns list of plain dicts"""
     from . import core
     out = []
-    for ob in obs:
+    cross = os.environ.get("VERIF_TIER", "") == "thorough" or os.environ.get("PYVC_CVC5_CROSSCHECK")
+    n_cross = 0
+    for i, ob in enumerate(obs):
         r = core.discharge(ob, timeout_ms)
         d = dict(name=ob.name, status=r["status"], backend=r["backend"], time_s=round(r["time_s"], 4),
                  model=r.get("model"), meta=ob.meta)
         if r.get("reason"):
             d["reason"] = r["reason"]
+        if cross and r["status"] == "unsat" and i % 7 == 0 and n_cross < 40:
+            # thorough tier: a second solver re-checks a sample of the discharged obligations.  `sat` from cvc5 on an
+            # obligation z3 discharged is a disagreement of the trusted back ends: reported as an engine error, never ignored.
+            n_cross += 1
+            try:
+                r2 = core._cvc5(ob.smt2(), 4000)
+            except Exception:
+                r2 = None
+            d["cvc5_crosscheck"] = (r2 or {}).get("status", "unknown")
+            if r2 is not None and r2.get("status") == "sat":
+                d["status"] = "engine-error"
+                d["meta"] = dict(ob.meta or {}, error="solver disagreement: %s says unsat, cvc5 says sat" % r["backend"])
         out.append(d)
     return out
 
@@ -134,6 +148,7 @@ def main(argv=None):
     if a.replay:
         return do_replay(mod, pid, a.replay)
     tier = a.tier
+    os.environ["VERIF_TIER"] = tier          # worker processes read the tier (cvc5 cross-check in the thorough tier)
     timeout_ms = (10000 if tier == "quick" else 60000)
     timeout_ms = getattr(mod, "TIMEOUT_MS", {}).get(tier, timeout_ms)
     engine_errors, results = [], []
@@ -340,8 +355,11 @@ def write_evidence(mod, pid, tier, seed, obligations, discharged, refuted, unkno
                    violations, engine_errors, wall, canary_ok, known_obs=()):
     import z3
     by_backend = {}
+    crosschecked = {}
     for r in discharged:
         by_backend[r["backend"]] = by_backend.get(r["backend"], 0) + 1
+        if r.get("cvc5_crosscheck"):
+            crosschecked[r["cvc5_crosscheck"]] = crosschecked.get(r["cvc5_crosscheck"], 0) + 1
     samples = []
     for r in (refuted + discharged)[:0] + discharged[:6] + refuted[:3]:
         samples.append(dict(obligation=r["name"], status=r["status"], backend=r["backend"], time_s=r["time_s"],
@@ -358,7 +376,7 @@ def write_evidence(mod, pid, tier, seed, obligations, discharged, refuted, unkno
             + list(getattr(mod, "TRUSTED", [])),
             samples=samples or [dict(note="no obligation generated")],
             refuted=len(refuted), undecided=len(unknown),
-            by_backend=by_backend, solver_time_s=round(sum(r["time_s"] for r in obligations), 3),
+            cvc5_crosscheck_of_discharged_sample=crosschecked, by_backend=by_backend, solver_time_s=round(sum(r["time_s"] for r in obligations), 3),
             functions_under_contract=funcs,
             structural_bounds=getattr(mod, "BOUNDS", {}).get(tier, getattr(mod, "BOUNDS", {})),
             bounded=[{k: v for k, v in b.items() if k != "failures"} | {"failures": len(b.get("failures", []))} for b in bounded],
